@@ -527,7 +527,7 @@ def eval_dynamics(ctx, specs, props, with_model=True, c17=False):
                     ctx.mismatch(case, diff, answers[k - 1][:300])
 
 
-def run_dynamics(ctx, props, sl_bias=0.35, quick=120, thorough=3000):
+def run_dynamics(ctx, props, sl_bias=0.35, quick=120, thorough=8000):
     prep()
     n = ctx.budget(quick, thorough) * ctx.boost
     batch = 200
@@ -768,7 +768,7 @@ def hist_equal(tr1, tr2, rel=1e-9, exact=False):
 def run_C12(ctx):
     prep()
     rng = ctx.rng
-    n = ctx.budget(60, 1500) * ctx.boost
+    n = ctx.budget(60, 4000) * ctx.boost
     for _ in range(n):
         ru = rng.random() < 0.7
         spec = gen.gen_spec(rng, random_units=ru, sl_bias=0.5)
@@ -864,7 +864,7 @@ def replay_C12(ctx, case):
 def run_C16(ctx):
     prep()
     rng = ctx.rng
-    n = ctx.budget(80, 2500) * ctx.boost
+    n = ctx.budget(80, 6000) * ctx.boost
     specs = []
     for _ in range(n):
         spec = gen.gen_spec(rng, random_units=rng.random() < 0.7, sl_bias=0.2)
@@ -953,7 +953,7 @@ def info_token(spec, tr, ei):
 def run_C17(ctx):
     prep()
     rng = ctx.rng
-    n = ctx.budget(70, 2000) * ctx.boost
+    n = ctx.budget(70, 5000) * ctx.boost
     for _ in range(n):
         spec = gen.gen_spec(rng, random_units=rng.random() < 0.5, sl_bias=0.3, optional_data=rng.choice([0.3, 0.6, 0.9]))
         dt = 2.0 ** -rng.randint(3, 6)
